@@ -1,4 +1,5 @@
 from ..framework import Spec
-from ..ties_sys import sys_tie
+from ..ties_sys import sys_tie, cli_tie
 
-SPEC = Spec(pid='C03', coq_needs=['Base', 'Layout', 'LayoutProofs', 'Program', 'Properties/C03'], ties=[sys_tie('C03')])
+SPEC = Spec(pid='C03', coq_needs=['Base', 'Layout', 'LayoutProofs', 'Program', 'Properties/C03'],
+            ties=[sys_tie('C03'), cli_tie('C03')])
